@@ -209,3 +209,32 @@ def enumeration(engine, it, ks):
         pass
     ks.enum = sq
     return sq
+
+
+def _lambda_over_keys(ks, body_fn):
+    """A presence map k -> body_fn(keys) as a z3 lambda array (nested for composite keys; no quantified fact)."""
+    nk = len(ks.shape.key)
+    kv = [z3.Int(fresh_name("fk")) for _ in range(nk)]
+    body = body_fn(kv)
+    arr = body
+    for v in reversed(kv):
+        arr = z3.Lambda([v], arr)
+    return arr
+
+
+def filtered(engine, it, ks, cond_fn):
+    """{x for x in ks if cond(x)}: the same stored records, present where they were present and cond holds."""
+    def body(kv):
+        elem = elem_at(engine, it, ks, kv)
+        c = it.try_nofork(nsel(ks.present, kv), lambda: cond_fn(elem))
+        c = c.z if isinstance(c, S) else c
+        cz = z3.BoolVal(c) if isinstance(c, bool) else c
+        return z3.And(nsel(ks.present, kv), cz)
+    return KeySetVal(ks.shape, _lambda_over_keys(ks, body), ks.arrays)
+
+
+def difference(engine, it, ks, other):
+    """ks - other (set of records with the same key shape): presence removed where `other` has the key."""
+    def body(kv):
+        return z3.And(nsel(ks.present, kv), z3.Not(nsel(other.present, kv)))
+    return KeySetVal(ks.shape, _lambda_over_keys(ks, body), ks.arrays)
